@@ -47,9 +47,9 @@ Proof.
   intros run hold p c o H. unfold submit. destruct (fdone c (lastf c) && negb hold); [now apply start_sec_pend|exact H].
 Qed.
 
-Lemma resume_pend : forall run c k o, pendl o = [] -> pendl (snd (resume run c k o)) = [].
+Lemma resume_pend : forall run rq c k o, pendl o = [] -> pendl (snd (resume run rq c k o)) = [].
 Proof.
-  intros run c k o H. unfold resume. destruct (waitq c) as [|x w]; [exact H|].
+  intros run rq c k o H. unfold resume. destruct (waitq c) as [|x w]; [exact H|].
   match goal with |- context [start_sec ?r ?x ?c0 ?o] =>
     pose proof (start_sec_pend r x c0 o H) as K; destruct (start_sec r x c0 o) as [c' o'] end.
   exact K.
@@ -107,18 +107,19 @@ Proof.
   - (* CprAnswer *)
     destruct (app (en s) && cpron (cp s) && negb (Nat.eqb (cprq (cp s)) 0) && _); [|exact H].
     destruct (cprwait (cp s) && _).
-    + match goal with |- context [resume ?r ?c ?k ?o] =>
-        pose proof (resume_pend r c k o H) as K; destruct (resume r c k o) as [[c' k'] o'] end.
+    + match goal with |- context [resume ?r ?q ?c ?k ?o] =>
+        pose proof (resume_pend r q c k o H) as K; destruct (resume r q c k o) as [[c' k'] o'] end.
       cbn [snd] in K. cbn [out]. now apply inval_pend.
     + cbn [out]. now apply inval_pend.
   - (* CprTimeout *)
     destruct (negb (Nat.eqb (cprq (cp s)) 0) && _); [|exact H].
     destruct (cprwait (cp s)); [|exact H].
-    match goal with |- context [resume ?r ?c ?k ?o] =>
-      pose proof (resume_pend r c k o H) as K; destruct (resume r c k o) as [[c' k'] o'] end.
+    match goal with |- context [resume ?r ?q ?c ?k ?o] =>
+      pose proof (resume_pend r q c k o H) as K; destruct (resume r q c k o) as [[c' k'] o'] end.
     exact K.
   - (* LPW *) destruct (patched (en s)); exact H.
   - (* LPFlush *) destruct (patched (en s)); exact H.
+  - (* AppDone *) destruct (app (en s) && running (en s) && negb (isdone (en s))); exact H.
 Qed.
 
 Lemma pend_run : forall ls s, pendl (out s) = [] -> pendl (out (run s ls)) = [].
